@@ -64,7 +64,7 @@ let handle cmd =
       let g = { g_theta = th; g_df = df; g_dth = dth } in
       let ff dir = balance_fn (toy_field kind amp a b q d0 e dir) tf g target in
       (* _total_stress_point: friction velocity 0 (U10 = 0) gives a NaN direction *)
-      let (u, d) = u10_from_bulk_rate_point ff (fun u _ -> if u = 0.0 then None else nd) diriter target guess gdir in
+      let (u, d) = u10_from_bulk_rate_point ff (fun u _ -> if u = 0.0 then Some None else Some nd) diriter target guess gdir in
       pof u ^ " " ^ pof d
   | "toyF" ->
       let kind = rd_nat () in
@@ -93,7 +93,7 @@ let handle cmd =
         let diss = List.map (fun row -> List.map (fun v -> (-. dc) *. v) row) e in
         pts := { p_diss = diss; p_k = k; p_guess = guess;
                  p_gen = (fun dir u -> toy_field kind amp a b q d0 e dir u);
-                 p_dedt = tf; p_newdir = (fun u _ -> if u = 0.0 then None else nd) } :: !pts
+                 p_dedt = tf; p_newdir = (fun u _ -> if u = 0.0 then Some None else Some nd) } :: !pts
       done;
       let g = { g_theta = th; g_df = df; g_dth = dth } in
       let res = u10_from_spectra g diriter (List.rev !pts) in
